@@ -144,7 +144,7 @@ type zz09tFlt struct {
 	H float32 `json:"h"`
 }
 
-const zz09tDev = true // DEVELOPMENT ONLY: tolerate the known finding silently
+const zz09tDev = false // true (development only): tolerate the known findings silently
 
 func zz09tItoa(i int) string {
 	if i < 10 {
@@ -378,20 +378,26 @@ func VerifC09TMarshal(kind, variant, mode int, tmpl string) {
 	}
 }
 
-// zz09tLitFFFD returns b with every six-byte escape \ufffd replaced by the three bytes of
-// U+FFFD.
-func zz09tLitFFFD(b []byte) []byte {
+// zz09tLitFFFD returns b with every six-byte escape \\ufffd replaced by the three bytes of
+// U+FFFD (escapes are read left to right, so an escaped backslash is skipped as a unit); with
+// deep, the same escape quoted a second time by the `string` tag option (\\\\ufffd) is
+// replaced too.
+func zz09tLitFFFD(b []byte, deep bool) []byte {
 	esc := []byte{'\\', 'u', 'f', 'f', 'f', 'd'}
-	esc2 := []byte{'\\', '\\', 'u', 'f', 'f', 'f', 'd'} // the escape quoted once more (`string` tag)
+	esc2 := []byte{'\\', '\\', 'u', 'f', 'f', 'f', 'd'}
 	out := make([]byte, 0, len(b))
 	for i := 0; i < len(b); {
-		if bytes.HasPrefix(b[i:], esc2) {
+		switch {
+		case deep && bytes.HasPrefix(b[i:], esc2):
 			out = append(out, 0xEF, 0xBF, 0xBD)
 			i += len(esc2)
-		} else if bytes.HasPrefix(b[i:], esc) {
+		case bytes.HasPrefix(b[i:], esc):
 			out = append(out, 0xEF, 0xBF, 0xBD)
 			i += len(esc)
-		} else {
+		case b[i] == '\\' && i+1 < len(b):
+			out = append(out, b[i], b[i+1])
+			i += 2
+		default:
 			out = append(out, b[i])
 			i++
 		}
@@ -407,7 +413,7 @@ func zz09tSameBytes(label string, o1, o2 []byte) {
 	same := bytes.Equal(o1, o2)
 	inKF := false
 	if !same {
-		inKF = bytes.Equal(o1, zz09tLitFFFD(o2))
+		inKF = bytes.Equal(o1, zz09tLitFFFD(o2, false)) || bytes.Equal(o1, zz09tLitFFFD(o2, true))
 		if inKF {
 			vrt.Cover("kf-ufffd")
 		}
@@ -667,6 +673,47 @@ func zz09tEq(kind int, a, b any) bool {
 func zz09tF32bits(f float32) uint32 { return math.Float32bits(f) }
 func zz09tF64bits(f float64) uint64 { return math.Float64bits(f) }
 
+// zz09tAfter returns the bytes that follow the first occurrence of `"<name>":"` for one of the
+// given member names.
+func zz09tAfter(in []byte, names ...string) ([]byte, bool) {
+	for i := range in {
+		for _, n := range names {
+			pat := []byte(`"` + n + `":"`)
+			if bytes.HasPrefix(in[i:], pat) {
+				return in[i+len(pat):], true
+			}
+		}
+	}
+	return nil, false
+}
+
+// zz09tQuotedLead delimits finding KF-C09-quoted-number-lead: a numeric member with the
+// `string` option (e, ps, f, g of the families above) is given a JSON string whose text does not
+// start with '-' or a digit: the classic package rejects it before parsing, v1 hands it to
+// strconv, which accepts "+1" and, for floats, ".5", "Inf", "NaN", ...
+func zz09tQuotedLead(in []byte) bool {
+	rest, ok := zz09tAfter(in, "e", "E", "ps", "PS", "Ps", "pS", "f", "F", "g", "G")
+	if !ok || len(rest) == 0 {
+		return false
+	}
+	c := rest[0]
+	return c != '-' && (c < '0' || c > '9') && c != '"'
+}
+
+// zz09tQuotedStrict delimits finding KF-C09-quoted-string-strict: the string member with the
+// `string` option (i) is given "null" or a quoted string with a surrogate escape: the classic
+// package accepts both (no effect resp. U+FFFD), v1 reports an error.
+func zz09tQuotedStrict(in []byte) bool {
+	rest, ok := zz09tAfter(in, "i", "I")
+	if !ok {
+		return false
+	}
+	if bytes.HasPrefix(rest, []byte(`null"`)) {
+		return true
+	}
+	return bytes.HasPrefix(rest, []byte(`\"`)) && (bytes.Contains(rest, []byte(`\\ud`)) || bytes.Contains(rest, []byte(`\\uD`)))
+}
+
 // VerifC09TUnmarshal: v1.Unmarshal and the classic Unmarshal, given the same input text and
 // equal targets of family kind, succeed or fail together; when both succeed the targets are
 // equal field by field; when the text is not valid JSON both fail and both targets still hold
@@ -680,6 +727,17 @@ func VerifC09TUnmarshal(kind, variant int, tmpl string) {
 	vrt.Observe("e1nil", e1 == nil)
 	vrt.Observe("e2nil", e2 == nil)
 	vrt.Assert("C09/unmarshal/input-not-modified", bytes.Equal(in, in2))
+	if (e1 == nil) != (e2 == nil) && !zz09tDev {
+		// known findings around the `string` tag option (only these exact shapes are attributed)
+		if e1 == nil && zz09tQuotedLead(in) {
+			vrt.Cover("kf-lead")
+			vrt.AssertKF("C09/unmarshal/same-success", false, "KF-C09-quoted-number-lead", true)
+		}
+		if e2 == nil && zz09tQuotedStrict(in) {
+			vrt.Cover("kf-strict")
+			vrt.AssertKF("C09/unmarshal/same-success", false, "KF-C09-quoted-string-strict", true)
+		}
+	}
 	vrt.Assert("C09/unmarshal/same-success", (e1 == nil) == (e2 == nil))
 	if e2 == nil {
 		vrt.Cover("ok")
@@ -722,10 +780,35 @@ func zz09tSameTok(a Token, b stdjson.Token) bool {
 	return false
 }
 
+// zz09tDecodeSame asserts equal error-ness of the two Decode calls. KF-C09-decode-at-object-name:
+// where a member name is due the classic Decode fails ("not at beginning of value"), v1 returns
+// the name as a string.
+func zz09tDecodeSame(e1, e2 error, atName bool) {
+	vrt.AssertKF("C09/decoder/decode-same-success", (e1 == nil) == (e2 == nil), "KF-C09-decode-at-object-name", atName && e1 == nil && e2 != nil)
+}
+
+// zz09tSepClose: the text contains ',' or ':' followed, after optional blanks, by ']' or '}'.
+func zz09tSepClose(in []byte) bool {
+	for i := 0; i < len(in); i++ {
+		if in[i] != ',' && in[i] != ':' {
+			continue
+		}
+		j := i + 1
+		for j < len(in) && (in[j] == ' ' || in[j] == '\t' || in[j] == '\r' || in[j] == '\n') {
+			j++
+		}
+		if j < len(in) && (in[j] == ']' || in[j] == '}') {
+			return true
+		}
+	}
+	return false
+}
+
 // VerifC09TDecoder drives a v1.Decoder and a classic Decoder over the same input with the
 // same call sequence chosen by the solver (per step: Decode, Token or More; InputOffset
 // after every step) until the first error: same error-ness, same decoded values, same
-// tokens, same More, same InputOffset. target 0 decodes into an any, 1 into zz09tTags.
+// tokens, same More, same InputOffset. target 0 decodes into an any, 1 into zz09tTags, 2 into
+// an int8.
 func VerifC09TDecoder(tmpl string, steps, target int, useNumber, disallow bool) {
 	in := zz09tText("h", tmpl)
 	d1 := NewDecoder(bytes.NewReader(in))
@@ -741,22 +824,38 @@ func VerifC09TDecoder(tmpl string, steps, target int, useNumber, disallow bool) 
 	vrt.Assert("C09/decoder/offset-initial", d1.InputOffset() == d2.InputOffset())
 	for i := 0; i < steps; i++ {
 		var e1, e2 error
+		atName := false // v1's tokenizer is inside an object where a member name is due
+		if k, n := d1.dec.StackIndex(d1.dec.StackDepth()); k == '{' && n%2 == 0 {
+			atName = true
+		}
 		switch vrt.Choice("op"+zz09tItoa(i), 3) {
 		case 0:
+			if atName {
+				vrt.Cover("decode-at-name")
+			}
 			if target == 0 {
 				var x1, x2 any
 				e1 = d1.Decode(&x1)
 				e2 = d2.Decode(&x2)
-				vrt.Assert("C09/decoder/decode-same-success", (e1 == nil) == (e2 == nil))
+				zz09tDecodeSame(e1, e2, atName)
 				if e2 == nil {
 					vrt.Cover("decoded")
 					vrt.Assert("C09/decoder/decode-same-value", zz09tEqAny(x1, x2))
+				}
+			} else if target == 2 {
+				x1, x2 := int8(77), int8(77)
+				e1 = d1.Decode(&x1)
+				e2 = d2.Decode(&x2)
+				zz09tDecodeSame(e1, e2, atName)
+				if e2 == nil {
+					vrt.Cover("decoded")
+					vrt.Assert("C09/decoder/decode-same-value", x1 == x2)
 				}
 			} else {
 				t1, t2 := zz09tNew(0, 0), zz09tNew(0, 0)
 				e1 = d1.Decode(t1)
 				e2 = d2.Decode(t2)
-				vrt.Assert("C09/decoder/decode-same-success", (e1 == nil) == (e2 == nil))
+				zz09tDecodeSame(e1, e2, atName)
 				if e2 == nil {
 					vrt.Cover("decoded")
 					vrt.Assert("C09/decoder/decode-same-value", zz09tEq(0, t1, t2))
@@ -783,7 +882,9 @@ func VerifC09TDecoder(tmpl string, steps, target int, useNumber, disallow bool) 
 			} else {
 				vrt.Cover("no-more")
 			}
-			vrt.Assert("C09/decoder/more-same", m1 == m2)
+			// KF-C09-more-before-invalid-close: invalid input with ',' or ':' directly before a
+			// closing bracket: the classic More looks at the separator, v1 at the bracket
+			vrt.AssertKF("C09/decoder/more-same", m1 == m2, "KF-C09-more-before-invalid-close", !m1 && m2 && zz09tSepClose(in))
 		}
 		if e1 != nil || e2 != nil {
 			vrt.Cover("error")
